@@ -467,17 +467,23 @@ def run_cell(role, name, init, rng, user_send=True):
         threads = []
         can_send = not (name in ("close", "chan-failure"))
         ut = threading.Thread(target=user, daemon=True)
+        hk = {}
+        hook_done = threading.Event()
 
         def at_kexinit():
             # schedule: [A: ... write KEXINIT] -> [user thread: chan.sendall up to the gate / the wire] -> [A: rest
             # of _send_kex_init].  With the flag cleared before the write the user thread finds it clear and waits.
-            ut.start()
-            threads.append(ut)
-            _wait(lambda: any(t == 94 and not tt for t, tt, _, _ in s.gate()), 3.0)
-            ent = [flag for t, tt, flag, _ in s.gate() if t == 94 and not tt]
-            obs["user_flag_at_gate"] = ent[0] if ent else None
-            if ent and ent[0]:
-                _wait(lambda: 94 in [t for t, _ in s.out_trace()], 3.0)
+            hk["started"] = True
+            try:
+                ut.start()
+                threads.append(ut)
+                _wait(lambda: any(t == 94 and not tt for t, tt, _, _ in s.gate()), 3.0)
+                ent = [flag for t, tt, flag, _ in s.gate() if t == 94 and not tt]
+                obs["user_flag_at_gate"] = ent[0] if ent else None
+                if ent and ent[0]:
+                    _wait(lambda: 94 in [t for t, _ in s.out_trace()], 3.0)
+            finally:
+                hook_done.set()
 
         if user_send and can_send:
             A.packetizer.c11_kexinit_hook = at_kexinit
@@ -486,12 +492,15 @@ def run_cell(role, name, init, rng, user_send=True):
         else:
             A.completion_event = threading.Event()
             A.packetizer._trigger_rekey()         # what send_message / read_message do at a threshold
-        for t in threads:
-            t.start()
+        for t in list(threads):     # the switch-point hook appends the user thread to `threads` concurrently
+            if t is not ut:
+                t.start()
         if not _wait(lambda: 20 in [t for t, _ in s.out_trace()]):
             raise RuntimeError("A did not send KEXINIT")
         obs["kexinit_on_tt"] = [tt for t, tt in s.out_trace() if t == 20][0]
-        if user_send and can_send and not ut.is_alive() and ut.ident is None:
+        if user_send and can_send:
+            hook_done.wait(WATCH)       # the KEXINIT sender resumes only after the user thread reached the gate / wire
+        if user_send and can_send and not hk.get("started"):
             ut.start()          # the switch point was not reached (cannot happen unless send_message is bypassed)
             threads.append(ut)
             _wait(lambda: any(t == 94 and not tt for t, tt, _, _ in s.gate()), 3.0)
